@@ -248,11 +248,22 @@ func writeDatagrams(w writerPlan, conn net.Conn, stop <-chan struct{}) {
 	}
 }
 
-func freeTCP() string {
-	l, _ := net.Listen("tcp", "127.0.0.1:0")
-	a := l.Addr().String()
-	l.Close()
-	return a
+// freePort asks the kernel for an unused port of the given family.
+func freePort(kind string) string {
+	if kind == "udp" {
+		l, err := net.ListenPacket("udp", "127.0.0.1:0")
+		if err != nil {
+			return "127.0.0.1:0"
+		}
+		defer l.Close()
+		return l.LocalAddr().String()
+	}
+	l, err := net.Listen("tcp", "127.0.0.1:0")
+	if err != nil {
+		return "127.0.0.1:0"
+	}
+	defer l.Close()
+	return l.Addr().String()
 }
 
 func runScenario(dir string, idx int, s scenario) outcome {
@@ -267,7 +278,7 @@ func runScenario(dir string, idx int, s scenario) outcome {
 		dial = filepath.Join(dir, fmt.Sprintf("s%d", idx))
 		target = s.Kind + "://" + dial
 	case "tcp", "udp":
-		dial = freeTCP()
+		dial = freePort(s.Kind)
 		target = s.Kind + "://" + dial
 	}
 	defer os.Remove(dial)
@@ -292,6 +303,12 @@ func runScenario(dir string, idx int, s scenario) outcome {
 		one = logstream.OneShotEnabled
 	}
 	ls, err := logstream.New(ctx, &wg, wk, target, one)
+	for try := 0; err != nil && strings.Contains(err.Error(), "address already in use") && try < 8 && (s.Kind == "tcp" || s.Kind == "udp"); try++ {
+		// the port found free was taken by a scenario running in parallel
+		dial = freePort(s.Kind)
+		target = s.Kind + "://" + dial
+		ls, err = logstream.New(ctx, &wg, wk, target, one)
+	}
 	if err != nil {
 		return outcome{what: "logstream.New: " + err.Error(), inconc: true}
 	}
